@@ -342,6 +342,37 @@ func c08Case(c *core.Case) {
 			c.Violation("value-differs/partial-"+route, fmt.Sprintf("PartialDecode value differs\n expected %s\n got      %s", valStr(expVal), valStr(pv)), nil)
 			return
 		}
+		// a leftover body is a value: decoding it twice gives the same result, and
+		// what it gives are the corresponding parts of the whole decode
+		if obj := spec; len(obj) >= 2 && expOK {
+			first, second := hcldec.ObjectSpec{}, hcldec.ObjectSpec{}
+			for i, k := range gen.SortedKeys(obj) {
+				if i%2 == 0 {
+					first[k] = obj[k]
+				} else {
+					second[k] = obj[k]
+				}
+			}
+			_, left, ld := hcldec.PartialDecode(hb, first, ctx)
+			if !ld.HasErrors() && left != nil {
+				r1, e1 := hcldec.Decode(left, second, ctx)
+				r2, e2 := hcldec.Decode(left, second, ctx)
+				c.Evals(3)
+				if e1.HasErrors() != e2.HasErrors() || !r1.RawEquals(r2) {
+					c.Violation("leftover-decodes-differently-twice/"+route, fmt.Sprintf("the leftover of a PartialDecode decodes to %s (errors=%v) the first time and to %s (errors=%v) the second time", valStr(r1), e1.HasErrors(), valStr(r2), e2.HasErrors()), nil)
+					return
+				}
+				if !e1.HasErrors() && r1.Type().IsObjectType() && val.Type().IsObjectType() {
+					for k := range second {
+						if r1.Type().HasAttribute(k) && val.Type().HasAttribute(k) && !r1.GetAttr(k).RawEquals(val.GetAttr(k)) {
+							c.Violation("leftover-value-differs/"+route, fmt.Sprintf("decoding the leftover gives %s for %q, decoding the whole body gives %s", valStr(r1.GetAttr(k)), k, valStr(val.GetAttr(k))), nil)
+							return
+						}
+					}
+				}
+				c.Count("leftovers-decoded-twice-alike")
+			}
+		}
 	}
 	nblk := 0
 	for k, v := range sg.kindsUsed {
